@@ -111,6 +111,13 @@ type lockResult struct {
 // locksets runs the forward must-analysis on f. entry = locks assumed held on entry.
 // summaries: callee name -> lock ops performed by a wrapper (acquire/release on all paths).
 func locksets(f *ssa.Function, entry lockState, summaries map[string][]lockOp) *lockResult {
+	return locksetsDepth(f, entry, summaries, 0)
+}
+
+// locksetsDepth also analyses the transparent callees of f (function literals called in place,
+// unexported helpers of the package) with the state held at the call, records the states of their
+// instructions in Before, and continues after the call with the state all their returns agree on.
+func locksetsDepth(f *ssa.Function, entry lockState, summaries map[string][]lockOp, depth int) *lockResult {
 	res := &lockResult{Before: map[ssa.Instruction]lockState{}, Deferred: map[string]bool{}}
 	in := map[*ssa.BasicBlock]lockState{}
 	out := map[*ssa.BasicBlock]lockState{}
@@ -130,6 +137,47 @@ func locksets(f *ssa.Function, entry lockState, summaries map[string][]lockOp) *
 			ops = append(ops, op)
 		} else if sm, ok := summaries[calleeName(ci.Common())]; ok {
 			ops = append(ops, sm...)
+		} else if g := transparentCallee(f, instr); g != nil && regionMode && depth < 3 {
+			sub := locksetsDepth(g, st, summaries, depth+1)
+			if record {
+				res.Ops += sub.Ops
+				for in, s2 := range sub.Before {
+					if old, ok := res.Before[in]; ok {
+						for k := range old {
+							if !s2[k] {
+								delete(old, k)
+							}
+						}
+					} else {
+						res.Before[in] = s2
+					}
+				}
+				res.Unpaired = append(res.Unpaired, sub.Unpaired...)
+			}
+			// state after the call: what every return of the callee holds
+			var exit lockState
+			for in, s2 := range sub.Before {
+				if _, isRet := in.(*ssa.Return); isRet && in.Parent() == g {
+					if exit == nil {
+						exit = s2.clone()
+					} else {
+						for k := range exit {
+							if !s2[k] {
+								delete(exit, k)
+							}
+						}
+					}
+				}
+			}
+			if exit != nil {
+				for k := range st {
+					delete(st, k)
+				}
+				for k := range exit {
+					st[k] = true
+				}
+			}
+			return
 		}
 		for _, op := range ops {
 			if record {
